@@ -37,7 +37,7 @@ def run(tier):
     wd = vlib.workdir(PID)
     vlib.stage_specs(wd, "ift", "common")
     # (1) exhaustive family
-    for mod in ["MC_IFTEnumQuick" if quick else "MC_IFTEnum", "MC_IFTEnumDup", "MC_IFTEnumAx", "MC_IFTEnumSid"]:
+    for mod in ["MC_IFTEnumQuick" if quick else "MC_IFTEnum", "MC_IFTEnumDup", "MC_IFTEnumAx", "MC_IFTEnumSid", "MC_IFTEnumSeg"]:
         r = vlib.run_tlc(wd, mod, workers=8 if quick else 14, timeout=3400)
         ck.add_tlc("tlc:" + mod, r)
         if not r.ok:
